@@ -9,11 +9,12 @@ WIDTHS = list(range(1, 18)) + [24, 32, 64]
 SPELL = ["big", "little", "network", "local", "None/class-big", "None/class-little", "None/no-option"]
 ENGINES = {"generic": {"generate_for_pack": False, "generate_for_unpack": False},
            "vectorised": {"vectorize": True}, "non-vectorised": {"vectorize": False}}
-POSITIONS = ["alone", "before-sentinel", "after-sentinel", "between-other-order", "other-order+byte-before", "other-order+data-before"]
+POSITIONS = ["alone", "before-sentinel", "after-sentinel", "between-other-order", "other-order+byte-before", "other-order+data-before",
+             "in-repeated", "in-optional"]
 RULE = ("enumerated: width {1..17,24,32,64} x signed x 7 byte-order spellings (big, little, network, local, class default big / "
         "little / absent) x 3 engines (generic loop, generated vectorised, generated non-vectorised) x 6 positions (alone, before / "
         "after a 1-byte sentinel, between two ints of the other byte order, after an int of the other byte order followed by a "
-        "single byte / by Data(2)); per configuration: ALL byte patterns for width 1 "
+        "single byte / by Data(2), as the element of .repeated(1), under .when(flag)); per configuration: ALL byte patterns for width 1 "
         "(and width 2 in the thorough tier; 4096 sampled in quick), every byte lane through all 256 values over backgrounds "
         "00/FF/A5, boundary values {0,+-1,min,max,min-1,max+1,2^(8n)} and seeded random integers up to 8n+8 bits on pack, and "
         "non-integers (1.0, 1.5, nan, '1', b'\\x01', None, Fraction(3), [1]); oracle: positional arithmetic written independently "
@@ -55,7 +56,11 @@ def source(n, cfgs):
             out.append("    s0 = Int(2, endianness=%r)\n    s1 = Int(1)\n" % other)
         if pos == "other-order+data-before":
             out.append("    s0 = Int(4, endianness=%r)\n    s1 = Data(2)\n" % other)
-        out.append("    x = Int(%s)\n" % args)
+        if pos in ("in-repeated", "in-optional"):
+            out.append("    s0 = Int(1)\n")
+            out.append("    x = Int(%s)%s\n" % (args, ".repeated(1)" if pos == "in-repeated" else ".when(s0)"))
+        else:
+            out.append("    x = Int(%s)\n" % args)
         if pos == "before-sentinel":
             out.append("    s1 = Int(1)\n")
         if pos == "between-other-order":
@@ -67,7 +72,7 @@ def source(n, cfgs):
 def layout(pos):
     """(bytes before, bytes after) the field under test"""
     return {"alone": (0, 0), "before-sentinel": (0, 1), "after-sentinel": (1, 0), "between-other-order": (2, 4),
-            "other-order+byte-before": (3, 0), "other-order+data-before": (6, 0)}[pos]
+            "other-order+byte-before": (3, 0), "other-order+data-before": (6, 0), "in-repeated": (1, 0), "in-optional": (1, 0)}[pos]
 
 
 def patterns(n, rng, tier, heavy):
@@ -133,6 +138,8 @@ def run_shard(shard, ctx):
                     want = ir.int_decode(pat, signed, big)
                     try:
                         got = cls.unpack(raw).x
+                        if pos == "in-repeated":
+                            got = got[0] if isinstance(got, list) and len(got) == 1 else ("list", got)
                     except Exception as e:
                         ctx.violation(case(sig="decode-raises", desc="unpack(%r) raised %r" % (raw, e), raw=raw))
                         continue
@@ -144,7 +151,7 @@ def run_shard(shard, ctx):
                 vs, lo, hi = values(n, signed, rng)
                 for v in sorted(vs):
                     ctx.ev()
-                    kw = {"x": v}
+                    kw = {"x": [v]} if pos == "in-repeated" else ({"x": v, "s0": 0} if pos == "in-optional" else {"x": v})
                     inrange = lo <= v <= hi
                     try:
                         out = cls(**kw).pack()
@@ -170,12 +177,14 @@ def run_shard(shard, ctx):
                 for v in NONINT + [True, False]:
                     ctx.ev()
                     try:
-                        out = cls(x=v).pack()
+                        out = cls(**({"x": [v]} if pos == "in-repeated" else {"x": v})).pack()
                         raised = None
                     except PacketError:
                         raised = "PacketError"
                     except Exception as e:
                         raised = type(e).__name__
+                    if pos == "in-optional" and v is None:
+                        continue    # None means 'absent' for an optional field
                     if isinstance(v, bool):
                         want = b"\x00" * pre + ir.int_encode(int(v), n, signed, big) + b"\x00" * post
                         if raised or out != want:
@@ -208,6 +217,8 @@ def replay(case, ctx):
         if "raw" in case:
             raw = case["raw"]
             got = cls.unpack(raw).x
+            if case["position"] == "in-repeated":
+                got = got[0]
             want = ir.int_decode(raw[pre:pre + n], signed, big)
             if got != want:
                 ctx.violation(dict(case, sig="decode-wrong", desc="decodes to %r, expected %r" % (got, want)))
@@ -218,7 +229,7 @@ def replay(case, ctx):
             lo, hi = (-(256 ** n) // 2, 256 ** n // 2 - 1) if signed else (0, 256 ** n - 1)
             ok = isinstance(v, int) and lo <= v <= hi
             try:
-                out = cls(x=v).pack()
+                out = cls(**({"x": [v]} if case["position"] == "in-repeated" else {"x": v})).pack()
                 if not ok:
                     ctx.violation(dict(case, sig="bad-value-packed", desc="%r packed to %r" % (v, out)))
                 elif out != b"\x00" * pre + ir.int_encode(v, n, signed, big) + b"\x00" * post:
